@@ -79,6 +79,13 @@ type Options struct {
 	// Retries is mrp's --autoretry: how many times a failure that
 	// Pipestance.IsErrorTransient accepts is answered by a restart.
 	Retries int
+	// Zombie: the process of a job attempt that mrp declared dead ("vanish"
+	// fault) is in fact still alive; once the next attempt of the same job
+	// has started, it completes with stale outputs (the pre-populated _outs,
+	// every value null) in ITS metadata directory and journals that under
+	// ITS journal name.  Result.ZombieProblems reports attempts that share
+	// an identity.
+	Zombie bool
 	// SignalAt > 0: a handled termination signal arrives just before the
 	// SignalAt-th file-system effect.  As in util.SetupSignalHandlers the
 	// process keeps running while a critical section is open; once none is,
@@ -157,6 +164,9 @@ type Result struct {
 	CaughtSignal []string
 	// Retried counts the automatic restarts after transient failures.
 	Retried int
+	// Zombies counts stale attempts that completed late (Options.Zombie).
+	Zombies        int
+	ZombieProblems []string
 	// CompiledOK: the invocation was refused although the compiler accepts
 	// the program.
 	CompiledOK bool
@@ -473,6 +483,11 @@ func Run(p *progen.Program, sched Schedule, opts Options) (res *Result) {
 		}
 	}
 
+	type zombie struct {
+		j     *core.VerifJob
+		stale []byte
+	}
+	zombies := map[string][]zombie{}
 	runBody := func(j *core.VerifJob) {
 		o := obs[j]
 		in := h.JobRead(j)
@@ -537,6 +552,13 @@ func Run(p *progen.Program, sched Schedule, opts Options) (res *Result) {
 			fault = f.Kind
 			faultFired++
 		}
+		if fault == "vanish" && opts.Zombie {
+			stale := []byte("{}")
+			if io.OutsTemplate != nil {
+				stale = []byte(io.OutsTemplate.JSON())
+			}
+			zombies[j.Key()] = append(zombies[j.Key()], zombie{j, stale})
+		}
 		how, msg := applyBody(p, h, j, io, fault)
 		h.JobBodyDone(j, fault)
 		o.Recorded = h.JobFinish(j, how, msg)
@@ -545,6 +567,7 @@ func Run(p *progen.Program, sched Schedule, opts Options) (res *Result) {
 
 	idle := 0
 	retriesLeft := opts.Retries
+	_ = zombies
 	for iter := 0; iter < opts.MaxIter; iter++ {
 		register()
 		// advance pending jobs in submission order
@@ -561,6 +584,22 @@ func Run(p *progen.Program, sched Schedule, opts Options) (res *Result) {
 			}
 			if j.Step == 0 {
 				h.JobStart(j, pid)
+				if zs := zombies[j.Key()]; len(zs) > 0 {
+					// an earlier attempt is still alive and finishes now,
+					// one run-loop iteration before this attempt does
+					delete(zombies, j.Key())
+					for _, z := range zs {
+						if z.j.MdPath == j.MdPath {
+							res.ZombieProblems = append(res.ZombieProblems, fmt.Sprintf(
+								"job %s: the attempt started after the automatic restart uses the metadata directory of the attempt it replaces (%s)",
+								j.Key(), strings.TrimPrefix(j.MdPath, psdir)))
+						}
+						h.JobWriteRaw(z.j, "outs", z.stale, false)
+						h.JobFinish(z.j, "complete", "")
+						res.Zombies++
+					}
+					continue
+				}
 				if sched.StartOnly[j.Key()] && obs[j].Attempt == 1 {
 					continue
 				}
